@@ -1594,7 +1594,11 @@ fn miter_joiner_inner(
 
     if angle_type == AngleType::Nearly180 {
         curr_is_line = false;
-        mid = (after - before).scaled(radius / 2.0);
+        // The miter of a 180 degree turn points along the incoming tangent. `after - before` is
+        // parallel to the normals instead, which made the miter-clip corners shoot off by
+        // radius * (limit + 1) / sin(turn error).
+        mid = before;
+        mid.rotate_cw();
         do_blunt_or_clipped(
             builders,
             pivot,
